@@ -1,8 +1,10 @@
 import Mp4ff.Model.Cenc
 import Mp4ff.Lemmas.C07
+import Mp4ff.Props.C06b
 /-!
 # C06 — decrypting what was encrypted restores the content
 Property theorems (proofs in `Mp4ff/Lemmas/C07.lean`, `CencCipher.lean`), over an abstract block cipher.
+The box bookkeeping of encryption and decryption (structure, sizes, data offsets, sample entry) is in `Props/C06b.lean`.
 -/
 namespace Mp4ff.Cenc.C06
 
